@@ -112,7 +112,6 @@ pub fn exec_present(input: &Value) -> Value {
     let redact: Vec<String> = input["redact"].as_array().map(|a| a.iter().map(|p| p.as_str().unwrap_or("").to_string()).collect()).unwrap_or_default();
     let builds = input["builds"].as_u64().unwrap_or(1) as usize;
     let kb = &input["kb"];
-    let t0 = std::time::SystemTime::now().duration_since(std::time::UNIX_EPOCH).unwrap().as_secs();
     let holder = catch_unwind(AssertUnwindSafe(|| -> Result<Holder, sdjwt::Error> {
         let mut h = Holder::presentation(&token)?;
         for r in &redact {
@@ -161,6 +160,12 @@ pub fn exec_present(input: &Value) -> Value {
                 }
             }
         }
+        // "sleep_ms": the holder object is prepared (presentation, redact, key_binding) some time before it builds; the
+        // KB-JWT's iat is the time of build(), so the clock is read again right before every build
+        if let Some(ms) = input["sleep_ms"].as_u64() {
+            std::thread::sleep(std::time::Duration::from_millis(ms));
+        }
+        let t0 = std::time::SystemTime::now().duration_since(std::time::UNIX_EPOCH).unwrap().as_secs();
         let b = catch_unwind(AssertUnwindSafe(|| holder.build()));
         match b {
             Err(_) => outs.push(json!({"build": {"o": "panic"}})),
